@@ -26,6 +26,7 @@ POOL = {
     "optimal_fit_num_samples": [5, 10, 100, 101, 7],
     "range_type": ["absolute", "relative cp"],
     "range_x": [[0, 0], [1e-6, 1e-6], [2e-6, 2e-6], [-5e-7, -5e-7],
+                [2e-6, -1e-6], [1e-6, -1e-6],
                 [0, 2e-6], [-1e-6, 5e-7], [-2e-6, 5e-7], [-1e-6, 1e-6],
                 [1.0, 23.0], [1.02, 3.0], [12.0, 3.0], [1.0, 2.0],
                 [1.0, 2.01], [-1e-6, 0], [0, 5e-7], [1.5, 25.0],
@@ -124,7 +125,10 @@ def canon(idnt):
             continue
         if k == "range_x":
             rx = list(S["range_x"])
-            out.append((k, cval(rx[1] if edelta else rx)))
+            # with the plateau search on only the upper bound counts (the
+            # documented don't-care is the *lower* one): for an inverted
+            # range that is the first entry
+            out.append((k, cval(max(rx) if edelta else rx)))
         elif k == "segment":
             out.append((k, cval(seg)))
         elif k == "weight_cp":
@@ -415,7 +419,8 @@ class HashWalkEngine:
             ops.append({"op": "set", "key": "optimal_fit_edelta",
                         "value": True, "repr": None, "route": "setitem"})
             for rx in rng.sample([[1e-6, 1e-6], [2e-6, 2e-6], [0, 0],
-                                  [0, 2e-6], [-5e-7, -5e-7]], 3):
+                                  [0, 2e-6], [-5e-7, -5e-7], [2e-6, -1e-6],
+                                  [1e-6, -1e-6]], 3):
                 ops.append({"op": "set", "key": "range_x", "value": rx,
                             "repr": None, "route": "setitem"})
         for o in ops:
